@@ -34,6 +34,84 @@ def oracle_update(d, rd, noise, sub, P, x, z):
     return {"H": H, "hx": hx, "S": S, "K": K, "y": [r[0] for r in y], "x": xn, "P": Pn, "nis": nis, "Lr": Lr}
 
 
+def one_update_against_oracle(ctx, d, ekf, sensor, key, pt, z, reading_obj, tag):
+    """one sensor update of `ekf` at `pt` with reading values `z` (passed as `reading_obj`) against the exact Kalman update"""
+    Ls = sorted(s.name for s in d.state)
+    rd = d.sensors[key]
+    Lr = sorted(rd)
+    m = len(Lr)
+    sub = eh.subs_map(d, pt)
+    P = eh.spd(ctx.rng, len(Ls))
+    x = [pt["state"][n] for n in Ls]
+    want = oracle_update(d, rd, sensor[key], sub, P, x, z)
+    case = {"def": d.describe(), "sensor": key, "noise": {r: str(v) for r, v in sensor[key].items()}, "point": eh.point_json(pt),
+            "P": eh.mat_json(P), "z": {r: core.frac_str(F(v)) for r, v in z.items()}, "stream": tag}
+    ctx.case(case, True); ctx.count(f"stream={tag}")
+    try:
+        with fk.quiet():
+            res = ekf.sensor_model(eh.state_obj(ekf, pt), eh.cov_obj(ekf, P), sensor_key=key, sensor_reading=reading_obj)
+    except Exception as e:
+        ctx.fail(f"sensor-model-raises:{fk.exc_kind(e)}:{tag}", f"sensor_model raises {e!r}"[:300], case); return
+    gx = fk.by_name(res.state)
+    sc = max([abs(float(v)) for v in want["x"]] + [1.0])
+    y_rec = np.asarray(ekf.innovations[key], dtype=float)
+    S_rec = np.asarray(ekf.sensor_prediction_uncertainty[key], dtype=float)
+    if S_rec.shape != (m, m) or not eh.mat_close(S_rec, want["S"]):
+        ctx.fail(f"update-S:{tag}", f"recorded innovation covariance {S_rec.tolist()} differs from H P H^T + Q = {[[float(v) for v in r] for r in want['S']]}", case)
+    elif y_rec.shape != (m, 1) or not eh.mat_close(y_rec, [[v] for v in want["y"]]):
+        ctx.fail(f"update-innovation:{tag}", f"recorded innovation {y_rec.tolist()} differs from z - h(x) = {[float(v) for v in want['y']]}", case)
+    elif not all(core.close(gx[n], w, scale=sc) for n, w in zip(Ls, want["x"])):
+        ctx.fail(f"update-state:{tag}", f"updated state {gx} differs from x + K (z - h(x)) = {dict(zip(Ls, map(float, want['x'])))}", case)
+    elif not eh.mat_close(res.covariance.data, want["P"]):
+        ctx.fail(f"update-cov:{tag}", "updated covariance differs from P - K H P", case)
+
+
+def later_filters_and_own_readings(ctx):
+    """(a) a second filter built later in the same process from the same definition with OTHER calibration values uses its own values;
+    (b) a reading object produced by the filter's own sensor model (a simulated measurement) is a reading like any other"""
+    for i in range(3 if ctx.quick else 25):
+        d = gen.gen_definition(ctx.rng, n_state=ctx.rng.choice([2, 3]), n_control=0, n_calib=1, n_sensors=1, depth=2)
+        key = sorted(d.sensors)[0]
+        k = d.calibration[0]
+        r0 = sorted(d.sensors[key])[0]
+        d.sensors[key][r0] = d.sensors[key][r0] + k * d.state[0] + 2 * k       # the prediction depends on the calibration value
+        process, sensor0 = eh.make_noises(ctx.rng, d)
+        filters = []
+        for which in (0, 1):
+            pt = gen.gen_point(ctx.rng, d)
+            # the second filter: other calibration values AND other per-reading noises, same sensor keys
+            sensor = sensor0 if which == 0 else {k2: {r: v * 3 + F(1, 4) for r, v in rd.items()} for k2, rd in sensor0.items()}
+            if which == 1:
+                pt["cal"] = {n: v + 3 for n, v in filters[0][1]["cal"].items()}
+            try:
+                ekf = eh.compile_ekf(d, process, sensor, pt["cal"], ctx.rng, cse=(i % 2 == 0))
+            except Exception as e:
+                ctx.fail(f"compile-ekf-raises:{fk.exc_kind(e)}", f"compile_ekf refuses a valid definition: {e!r}"[:300], {"def": d.describe()}); break
+            filters.append((ekf, pt, sensor))
+            Lr = sorted(d.sensors[key])
+            hx = eh.oracle_vals(d.sensors[key], Lr, eh.subs_map(d, pt))
+            z = {r: F(h).limit_denominator(2 ** 20) + gen.dyadic(ctx.rng, -1, 1, 4) for r, h in zip(Lr, hx)}
+            one_update_against_oracle(ctx, d, ekf, sensor, key, pt, z, ekf.make_reading(key, **{r: float(v) for r, v in z.items()}),
+                                      "second-filter-other-calibration" if which else "first-filter")
+        if not filters:
+            continue
+        if len(filters) == 2:
+            # both filter objects are alive: the FIRST one still uses its own noises and keeps its own records
+            ekf, pt, sn = filters[0]
+            Lr = sorted(d.sensors[key])
+            hx = eh.oracle_vals(d.sensors[key], Lr, eh.subs_map(d, pt))
+            z = {r: F(h).limit_denominator(2 ** 20) + gen.dyadic(ctx.rng, -1, 1, 4) for r, h in zip(Lr, hx)}
+            one_update_against_oracle(ctx, d, ekf, sn, key, pt, z, ekf.make_reading(key, **{r: float(v) for r, v in z.items()}), "first-filter-revisited")
+        # (b) simulated measurement: z = h(true state), produced by the filter's own sensor model, applied at another estimate
+        ekf, pt, sensor = filters[-1]
+        truth = gen.gen_point(ctx.rng, d); truth["cal"] = pt["cal"]
+        with fk.quiet():
+            zobj = ekf.sensor_models[key].model(eh.state_obj(ekf, truth))
+        Lr = sorted(d.sensors[key])
+        z = {r: F(float(v)) for r, v in zip(Lr, np.asarray(zobj.data, dtype=float).reshape(-1))}
+        one_update_against_oracle(ctx, d, ekf, sensor, key, pt, z, zobj, "reading-from-own-sensor-model")
+
+
 def run(ctx, focus="C05"):
     audit = core.lean_audit("C05")
     drv = core.Driver()
@@ -117,6 +195,8 @@ def run(ctx, focus="C05"):
                     idx = drv.add({"op": "update", "ekf": eh.ekf_json(d, process, sensor, filtering), "point": eh.point_json(pt),
                                    "P": eh.mat_json(P), "sensor": key, "z": [[r, core.frac_str(v)] for r, v in z.items()]})
                     pending.append((idx, gx, res.covariance.data.copy(), S_rec.copy(), y_rec.copy(), case))
+    if focus == "C05":
+        later_filters_and_own_readings(ctx)
     ans = drv.run()
     for idx, gx, gP, gS, gy, info in pending:
         a = ans[idx]
